@@ -5,11 +5,17 @@ sys.path.insert(0, os.path.join(ROOT, "harness"))
 import manifest_data as D
 
 ALL = ["C%02d" % i for i in range(1, 21)]
+CL = dict(D.CLAIMED)
+metadir = os.path.join(ROOT, "harness", "meta")
+if os.path.isdir(metadir):
+    for fn in sorted(os.listdir(metadir)):
+        if fn.endswith(".json"):
+            CL[fn[:-5]] = json.load(open(os.path.join(metadir, fn)))
 checks = []
 for pid in ALL:
-    if pid not in D.CLAIMED:
+    if pid not in CL:
         continue
-    e = D.CLAIMED[pid]
+    e = CL[pid]
     checks.append({
         "property_id": pid,
         "quick_cmd": "./check %s --tier quick" % pid,
@@ -22,7 +28,7 @@ for pid in ALL:
         "technique": e["technique"],
     })
 na = [{"property_id": pid, "reason": D.NOT_CLAIMED.get(pid, "check not built yet in this round (see DESIGN.md §11 build order)")}
-      for pid in ALL if pid not in D.CLAIMED]
+      for pid in ALL if pid not in CL]
 man = {
     "version": 1,
     "setup_cmd": "cd lean && lake build BpModel BpProofs bpdriver",
